@@ -35,7 +35,7 @@ func (b *cn470Band) GetDefaultMaxUplinkEIRP() float32 {
 }
 
 func (b *cn470Band) GetPingSlotFrequency(devAddr lorawan.DevAddr, beaconTime time.Duration) (uint32, error) {
-	downlinkChannel := (int(binary.BigEndian.Uint32(devAddr[:])) + int(beaconTime/(128*time.Second))) % 8
+	downlinkChannel := (binary.BigEndian.Uint32(devAddr[:]) + uint32(beaconTime/(128*time.Second))) % 8
 	return []uint32{
 		508300000,
 		508500000,
